@@ -284,6 +284,14 @@ def run_case(case):
     path = os.path.join(d, "c03_%d.rec" % case["_i"])
     if os.path.exists(path):
         os.unlink(path)
+    # the name as the library is given it: one case in five spells the directory as ~ or as an environment variable
+    # (both documented as accepted); the driver itself always inspects the real path
+    lpath = path
+    sp = rng.random()
+    if sp < .2:
+        os.environ["VERIF_C03_DATA"] = d
+        os.environ["HOME"] = d
+        lpath = ("$VERIF_C03_DATA/" if sp < .1 else "~/") + os.path.basename(path)
     if text:
         proto = rs.text_table(rng, nrows=1, exact=True)
     else:
@@ -344,7 +352,7 @@ def run_case(case):
             kw = dict(header=hdr, delim=delim)
             if op == "append-missing":
                 kw["append"] = True
-            res, e, b, a = do(op, lambda: sfile.write(path, wcopy(c), **kw))
+            res, e, b, a = do(op, lambda: sfile.write(lpath, wcopy(c), **kw))
             if e is not None:
                 viol("C03.history", "%s raised %s: %s" % (op, type(e).__name__, str(e)[:160]), step=step,
                      key="append/missing-file-not-created" if op == "append-missing" and isinstance(e, (FileNotFoundError, OSError, RuntimeError)) else None)
@@ -355,7 +363,7 @@ def run_case(case):
             mode = "w+" if op.endswith("w+") else "w"
 
             def f():
-                handle[0] = sfile.SFile(path, mode, delim=delim)
+                handle[0] = sfile.SFile(lpath, mode, delim=delim)
                 handle[0].write(wcopy(c), header=hdr)
             res, e, b, a = do(op, f)
             if e is not None:
@@ -379,7 +387,7 @@ def run_case(case):
                 kw["header"] = {"other": "header", "a": 99}
             if rng.random() < .5:
                 kw["delim"] = delim          # delim= is documented as ignored when the file exists
-            res, e, b, a = do(op, lambda: sfile.write(path, wcopy(c), **kw))
+            res, e, b, a = do(op, lambda: sfile.write(lpath, wcopy(c), **kw))
             if e is not None:
                 viol("C03.history", "%s raised %s: %s" % (op, type(e).__name__, str(e)[:160]), step=step)
                 break
@@ -389,7 +397,7 @@ def run_case(case):
             cs = [chunk() for _ in range(k)]
 
             def f():
-                handle[0] = sfile.SFile(path, "r+")
+                handle[0] = sfile.SFile(lpath, "r+")
                 for c in cs:
                     handle[0].write(wcopy(c))
                 if op == "reopen-write":
@@ -405,10 +413,10 @@ def run_case(case):
             dt2, kind = incompatible(rng, model.chunks[0].dtype if not text else dtype, text)
             bad = new_chunk(rng, dt2, text, nrows=int(rng.integers(1, 5)))
             if op == "incompat-fn":
-                okk = reject(op, lambda: sfile.write(path, bad.copy(), append=True), kind, False)
+                okk = reject(op, lambda: sfile.write(lpath, bad.copy(), append=True), kind, False)
             elif op == "incompat-reopen":
                 def f():
-                    with sfile.SFile(path, "r+") as sf:
+                    with sfile.SFile(lpath, "r+") as sf:
                         sf.write(bad.copy())
                 okk = reject(op, f, kind, False)
             else:
@@ -455,6 +463,7 @@ def expected_table(model, text):
 
 def judge_state(path, model, form, delim, wit0, step, op, viol):
     from esutil import sfile
+    lpath = path            # the state is read back through the real path
     text = delim is not None
     exp = expected_table(model, text)
     total = model.total()
@@ -528,7 +537,7 @@ def judge_state(path, model, form, delim, wit0, step, op, viol):
     if text and raw[start:].count(b"\n") != total:
         viol("C03.state", "after %s (step %d): data section has %d lines for %d rows" % (op, step, raw[start:].count(b"\n"), total), step=step)
         return False
-    with sfile.SFile(path) as sf:
+    with sfile.SFile(lpath) as sf:
         if sf.nrows != total or len(sf[total - 1:]) != 1:
             viol("C03.state", "after %s (step %d): SFile.nrows %r / last-row slice wrong" % (op, step, sf.nrows), step=step)
             return False
